@@ -52,6 +52,7 @@ impl<'c, Q: Queue> Interp<'c, Q> {
             Op::DeserSeq { pairs, carrier, cross } => self.do_deser_seq(pairs, *carrier, *cross),
             // outside the fault runner the wrapped operation simply runs
             Op::WithFault { op, .. } => self.apply(op),
+            Op::IterMutEach { how, k, rw, rwmask } => self.do_iter_mut_each(*how, *k, *rw, *rwmask),
             Op::Snapshot => self.do_snapshot(),
             Op::RestoreFrom => self.do_restore_from(),
         }
